@@ -58,11 +58,14 @@ def layout_points(eps):
 
 
 def layouts(eps, max_size):
+    """All subsets of the layout points up to max_size, plus the full set."""
     pts = layout_points(eps)
     out = []
-    for r in range(0, max_size + 1):
+    for r in range(0, min(max_size, len(pts)) + 1):
         for idx in itertools.combinations(range(len(pts)), r):
             out.append(list(idx))
+    if max_size < len(pts):
+        out.append(list(range(len(pts))))
     return out
 
 
@@ -91,7 +94,7 @@ def enumerate_cases(tier, seed):
     ctrl_names = ["I_default", "I_dyadic_a", "PI_default", "S_grow"] if quick else list(CONTROLLERS)
     eps_names = ["eps_dyadic"] if quick else list(EPSS)
     max_pieces = 2 if quick else 3
-    max_layout = 2 if quick else 7
+    max_layout = 2 if quick else 3
     # ---- profile mode: one case = (entry, controller, eps, clip, dt0, layout); all profiles inside
     for cn in ctrl_names:
         for en in eps_names:
